@@ -410,6 +410,13 @@ func (p c10) Eval(c *Case, outs []*Out) []Discrepancy {
 				}
 				if allClash {
 					cls += ":nameclash"
+				} else if len(dupTypes) == 1 && dupTypes[0] == "type Sub" {
+					for _, r := range meta.Refs {
+						if r.Spelling == "samename:ref-target" {
+							cls += ":samename:ref-target" // known finding KF-C10-6
+							break
+						}
+					}
 				}
 				add("S", cls, fmt.Sprintf("output %q declares %v more than once", path, dupTypes))
 			}
